@@ -900,6 +900,8 @@ class Model:
                 for f in c["fields"]:
                     if f["default"]:
                         out.add(f["default"]["kind"])
+                        if f["default"]["src"] == "[]":
+                            out.add("unhashable")
                         if f["default"].get("is_object"):
                             out.add("any-object")
                             if not f["default"].get("frozen"):
@@ -908,6 +910,8 @@ class Model:
             for p in spec["params"]:
                 if p["default"]:
                     out.add(p["default"]["kind"])
+                    if p["default"]["src"] == "[]":
+                        out.add("unhashable")
                     if p["default"].get("is_object"):
                         out.add("any-object")
                     if p["default"].get("is_object") and not p["default"].get("frozen"):
